@@ -135,10 +135,11 @@ func purgeWidthGadgets(ex expr.Expr) (expr.Expr, bool) {
 		return expr.NewLess(c1, c2, et, ef, e.Width()), true
 	case expr.MemLoad:
 		// Address keeps its width independently on width of MemLoad.
+		// Width gadgets of the address must not be pruned against the load
+		// width as they would be for a value operand.
 		addr, changedAddr := purgeWidthGadgetsKeepWidth(e.Addr())
-		addr, prunedAddr := pruneUselessWidthGadgets(addr, e.Width())
 
-		if !(changedAddr || prunedAddr) {
+		if !changedAddr {
 			return ex, false
 		}
 		return expr.NewMemLoad(e.Key(), addr, e.Width()), true
